@@ -25,7 +25,7 @@ Print Assumptions C07_wrap_lines_lossless.
 
 (* Width bound, for every width >= 1: every piece handed to the child has at most WIDTH
    bytes, or is a single code point ([width_ok] = length <= w, or the scanner counts
-   exactly one code point).  Proved for the repaired wrap_lines (repo commit b62d6b6);
+   exactly one code point).  Proved for the repaired wrap_lines (repo commit d3504c5);
    the original code violated it, e.g. -w 3 on two 2-byte characters. *)
 Theorem C07_width_bound : forall line o, utf8_valid line = true -> short_line line -> 1 <= w_width o ->
   exists ps ds, wrap_lines line o = WOk ps ds /\
@@ -42,6 +42,17 @@ Theorem C07_tool_join_spec : forall o g ls,
 Proof. exact tool_join_spec_proof. Qed.
 Print Assumptions C07_tool_join_spec.
 
+(* The same for the data flow as it really is ([foldfilter_stream]: ONE stream of all pieces of
+   all lines to the child, ONE stream of answers back, the collector taking as many answer lines
+   per queue entry as the entry has withheld runs): with a line-preserving child every output line
+   consists of the answers to exactly that line's pieces -- nothing is attributed to a neighbour. *)
+Theorem C07_stream_attribution : forall o g ls, lp g ->
+  Forall (fun l => utf8_valid l = true /\ short_line l) ls -> forallb (no_delim 10) ls = true ->
+  foldfilter_stream o (line_child g) fold_feeder_strip_cr fold_collector_strip_cr (unrecords 10 ls)
+  = TOk (unrecords 10 (map (rejoined o g) ls)).
+Proof. exact stream_attribution_proof. Qed.
+Print Assumptions C07_stream_attribution.
+
 (* an identity child reproduces the input exactly (delimiters are never NUL: they come from argv) *)
 Theorem C07_tool_identity : forall o ls,
   Forall (fun l => utf8_valid l = true /\ short_line l) ls -> forallb (no_delim 10) ls = true ->
@@ -49,6 +60,35 @@ Theorem C07_tool_identity : forall o ls,
   foldfilter_tool o (fun x => x) (unrecords 10 ls) = TOk (unrecords 10 ls).
 Proof. exact tool_identity_proof. Qed.
 Print Assumptions C07_tool_identity.
+
+(* The command line: -w accepts exactly non-empty strings of decimal digits below 2^64
+   ([parse_width]; anything else is a usage error), and with any accepted width an identity
+   child reproduces the input. *)
+Theorem C07_cli_identity : forall wstr w keep delims ls,
+  parse_width wstr = Some w ->
+  Forall (fun l => utf8_valid l = true /\ short_line l) ls -> forallb (no_delim 10) ls = true ->
+  ~ In 0 delims ->
+  foldfilter_cli wstr keep delims (fun x => x) (unrecords 10 ls) = CRun (TOk (unrecords 10 ls)).
+Proof. exact cli_identity_proof. Qed.
+Print Assumptions C07_cli_identity.
+
+Theorem C07_width_option_grammar : forall s w, parse_width s = Some w ->
+  s <> [] /\ forallb (fun c => (48 <=? c) && (c <=? 57)) s = true /\ 0 <= w < 18446744073709551616.
+Proof. exact parse_width_spec. Qed.
+Print Assumptions C07_width_option_grammar.
+
+(* -d: every argument that is well-formed UTF-8 (Table 3-7) is accepted and denotes exactly
+   its code points, in order (re-encoding them gives the argument back) *)
+Theorem C07_delims_option_grammar : forall dstr, WF dstr ->
+  exists ds, parse_delims dstr = Some ds /\ utf8_of_cps ds = dstr.
+Proof. exact wf_roundtrip. Qed.
+Print Assumptions C07_delims_option_grammar.
+
+Example C07_nonvacuous_width_option :
+  parse_width [50; 49; 52; 55; 52; 56; 51; 54; 52; 56] = Some 2147483648 /\ parse_width [45; 49] = None /\
+  parse_width [] = None /\ parse_width [53; 120] = None /\
+  parse_width [49; 56; 52; 52; 54; 55; 52; 52; 48; 55; 51; 55; 48; 57; 53; 53; 49; 54; 49; 54] = None.
+Proof. vm_compute. repeat split; reflexivity. Qed.
 
 (* The premise [utf8_valid] is met by every well-formed UTF-8 byte string in the sense of
    the Unicode standard, Table 3-7 ([WF]: one constructor per row of the table), so the
@@ -85,6 +125,15 @@ Proof.
   apply wf_4a; [unfold rng; lia..|]. apply wf_3c; [unfold rng; lia..|]. apply wf_4c; [unfold rng; lia..|].
   apply wf_nil.
 Qed.
+
+Example C07_nonvacuous_stream :
+  let o := {| w_width := 2; w_keep := false; w_delims := [32] |} in
+  let input := [97; 98; 32; 99; 10; 100; 101; 102; 10] in
+  foldfilter_stream o (line_child (fun p => 91 :: p ++ [93])) false false input
+    = TOk [91; 97; 98; 93; 32; 91; 99; 93; 10; 91; 100; 101; 93; 91; 102; 93; 10] /\
+  (* a child that swallows the second line it reads: the collector runs out of answers *)
+  foldfilter_stream o (fun s => firstn 3 s ++ skipn 5 s) false false input = TChildShort.
+Proof. vm_compute. split; reflexivity. Qed.
 
 Example C07_nonvacuous_tool :
   let o := {| w_width := 2; w_keep := true; w_delims := [32] |} in
